@@ -71,10 +71,7 @@ def recComponent : Component where
 
 /-- ops: `cfg interval=<ms> [skew=<ms>]` | `writer` | `bind ssrc=` | `rtp ssrc= seq=` → `read ok|blocked` |
 `adv ms=` → reports written | `close` → `closed released=<n>`. -/
-def intComponent : Component where
-  σ := Option Icpt
-  init := none
-  step := fun s ts =>
+def intStep (s : Option Icpt) (ts : List String) : Option Icpt × List String :=
     let fs := fields ts
     match s, ts with
     | none, ["cfg", _] =>
@@ -116,6 +113,25 @@ def intComponent : Component where
       let r := st.close
       (some r.1, [s!"closed released={r.2}"])
     | _, _ => (s, ["bad-op"])
+
+/-- `intStep` plus the op `step ns=<±n>`: the configured clock (a wall clock; only when the case configured one with
+`cfg … skew=`) is stepped by `n` ns from now on; the ticker is monotonic, so the next tick is as far away as it was
+and reads the stepped clock.  The flag remembers whether a clock was configured. -/
+def intComponent : Component where
+  σ := Bool × Option Icpt
+  init := (false, none)
+  step := fun (w, s) ts =>
+    match s, ts with
+    | some st, ["step", _] =>
+      match getInt (fields ts) "ns" with
+      | some ns =>
+        if w ∧ -90000000000000 ≤ ns ∧ ns ≤ 90000000000000 then
+          ((w, some { st with now := st.now + ns, tickerAt := st.tickerAt.map (· + ns) }), [])
+        else ((w, s), ["bad-op"])
+      | none => ((w, s), ["bad-op"])
+    | _, _ =>
+      let r := intStep s ts
+      ((w || (s.isNone && r.1.isSome && ts.length == 3), r.1), r.2)
 
 def components : List (String × Component) := [("ccfbrec", recComponent), ("ccfbint", intComponent)]
 
